@@ -612,6 +612,145 @@ theorem finished_absorbing (cfg : Cfg) {t : TCfg} (r : R) (hI : Inv t r) (hr : r
     simp only [hcur, hcaf, Option.isSome_none, Bool.false_eq_true, if_false, if_true]
     exact ⟨⟨rfl, rfl, rfl, rfl, rfl, rfl, rfl⟩, trivial⟩
 
+/-- **the state a refused reservation leaves** (`Reader::read_until_image_data`, mod.rs:367-374; it is also the state
+    after `finish`): no frame remains, the sub-frame that is still installed — the OLD one, whose row buffers were
+    paid for — is consumed and flushed and has no current row -/
+def Ended (r : R) : Prop := r.remaining = 0 ∧ r.sub.caf = true ∧ r.sub.cur = none
+
+theorem R.ended_Ended (r : R) : Ended r.ended := ⟨rfl, rfl, rfl⟩
+
+theorem Sub.ended_eq (s : Sub) (h1 : s.caf = true) (h2 : s.cur = none) : ({ s with cur := none, caf := true } : Sub) = s := by
+  cases s; simp only at h1 h2; subst h1; subst h2; rfl
+
+/-- `finish` leaves the sub-frame as it is, marked consumed and without a current row -/
+theorem finish_sub (cfg : Cfg) {t : TCfg} (r : R) (hI : Inv t r) :
+    (finish cfg r).1.sub = { r.sub with cur := none, caf := true } := by
+  unfold finish
+  by_cases hfin : r.finished = true
+  · rw [if_pos hfin]
+    exact (Sub.ended_eq r.sub (hI.fin hfin).1 (hI.fin hfin).2.2).symm
+  · rw [if_neg hfin]
+    simp only
+    have hB : Base { r with remaining := 0, ub := UB.new, sub := { r.sub with cur := none, caf := true } } :=
+      hI.base.congr rfl rfl rfl
+    have hsp := readUntilEndOfInput_spec cfg _ _ (fuelOf_ge _) hB
+    generalize readUntilEndOfInput cfg
+      (fuelOf { r with remaining := 0, ub := UB.new, sub := { r.sub with cur := none, caf := true } })
+      { r with remaining := 0, ub := UB.new, sub := { r.sub with cur := none, caf := true } } = out at hsp
+    obtain ⟨r1, res⟩ := out
+    cases res with
+    | error e => exact hsp.2.frame.fields.1
+    | ok u => exact hsp.1.frame.fields.1
+
+/-- **after a refused reservation**: `next_frame` and `next_frame_info` answer `Parameter(PolledAfterEndOfImage)`,
+    `read_row` and `next_row` answer `None` — none of them touches the stream decoder, the sub-frame or the
+    unfiltering buffer; `next_row` sizes its scratch row by the width of the sub-frame that is still installed;
+    `finish` keeps the state ended and the sub-frame as it is, and returns `Ok` or an error -/
+theorem refused_absorbing (cfg : Cfg) {t : TCfg} (r : R) (hI : Inv t r) (hr : r.isReader = true) (hE : Ended r) :
+    (∀ p, step cfg t r (.nextFrame p) = ({ r with pendingBuf := none }, .err .parameter "PolledAfterEndOfImage")) ∧
+    step cfg t r .nextFrameInfo = ({ r with pendingBuf := none }, .err .parameter "PolledAfterEndOfImage") ∧
+    step cfg t r .readRow = ({ r with pendingBuf := none }, .noRow) ∧
+    (∀ i, r.dec.info = some i → step cfg t r .nextRow =
+      ({ r with pendingBuf := none, scratchLen := outLineSize t i r.flags r.sub.width }, .noRow)) ∧
+    (Ended (step cfg t r .finish).1 ∧ (step cfg t r .finish).1.sub = r.sub ∧
+      ((step cfg t r .finish).2 = .done ∨ (step cfg t r .finish).2.isErr = true)) := by
+  obtain ⟨s1, s2, s3, s4, s5⟩ := step_reader cfg t r hr
+  obtain ⟨hrem, hcaf, hcur⟩ := hE
+  obtain ⟨i, hi, hg⟩ := hI.info
+  refine ⟨fun p => ?_, ?_, ?_, ?_, ?_⟩
+  · rw [s1 p]
+    unfold nextFrameOp
+    simp only [infoOf, hi]
+    unfold nextFrameBuf
+    simp only [hrem, if_true]
+  · rw [s4]
+    unfold nextFrameInfo
+    simp only [hcaf, if_true, hrem]
+  · rw [s3]
+    simp only [infoOf, hi]
+    unfold readRow finishDecoding
+    simp only [hcur, hcaf, Option.isSome_none, Bool.false_eq_true, if_false, if_true]
+  · intro j hj
+    rw [hi] at hj; cases hj
+    rw [s2]
+    unfold nextInterlacedRow
+    simp only [infoOf, hi]
+    unfold readRow finishDecoding
+    simp only [hcur, hcaf, Option.isSome_none, Bool.false_eq_true, if_false, if_true]
+  · rw [s5]
+    have hft := finish_terminal cfg { r with pendingBuf := none } (hI.setPending none)
+    have hsub : (finish cfg { r with pendingBuf := none }).1.sub = { r.sub with cur := none, caf := true } :=
+      finish_sub cfg { r with pendingBuf := none } (hI.setPending none)
+    refine ⟨⟨hft.1, hft.2.1, by rw [hsub]⟩, by rw [hsub]; exact Sub.ended_eq r.sub hcaf hcur, ?_⟩
+    rcases hft.2.2 with h | h
+    · exact Or.inl h.1
+    · exact Or.inr h
+
+/-- results that can follow a refused reservation: `None`, `Ok(())` (`finish`, or the model's `grow`), an error — never
+    a row, a frame, a frame control, a header or a panic -/
+def Res.afterRefusal : Res → Bool
+  | .noRow | .done | .err _ _ => true
+  | _ => false
+
+/-- **the ended state is kept by every call sequence** (no `read_info`: a `Reader` exists): the invariant, the ended
+    state, the installed sub-frame and the transformation flags survive any further calls and growths of the
+    input, and no call returns a row, a frame or a frame control -/
+theorem ended_run (cfg : Cfg) {t : TCfg} : ∀ (ops : List Op) (r : R), Inv t r → r.isReader = true →
+    Ended r → Op.readInfo ∉ ops →
+    Inv t (run cfg t r ops).1 ∧ (run cfg t r ops).1.isReader = true ∧
+    Ended (run cfg t r ops).1 ∧ (run cfg t r ops).1.sub = r.sub ∧ (run cfg t r ops).1.flags = r.flags ∧
+    ∀ res ∈ (run cfg t r ops).2, res.afterRefusal = true := by
+  intro ops
+  induction ops with
+  | nil => intro r hI hr hE _; exact ⟨hI, hr, hE, rfl, rfl, by simp [run]⟩
+  | cons op ops ih =>
+    intro r hI hr hE hops
+    have hop : op ≠ .readInfo := fun h => hops (by rw [h]; exact List.mem_cons_self)
+    have hops' : Op.readInfo ∉ ops := fun h => hops (List.mem_cons_of_mem _ h)
+    obtain ⟨i, hi, _⟩ := hI.info
+    obtain ⟨e1, e2, e3, e4, e5⟩ := refused_absorbing cfg r hI hr hE
+    have key : Inv t (step cfg t r op).1 ∧ (step cfg t r op).1.isReader = true ∧
+        Ended (step cfg t r op).1 ∧ (step cfg t r op).1.sub = r.sub ∧ (step cfg t r op).1.flags = r.flags ∧
+        (step cfg t r op).2.afterRefusal = true := by
+      cases op with
+      | readInfo => exact absurd rfl hop
+      | grow n =>
+        refine ⟨?_, hr, hE, rfl, rfl, rfl⟩
+        exact hI.setVisible _ (by omega)
+      | readHeader =>
+        have : step cfg t r .readHeader = (r, .err .parameter "model: Decoder already consumed") := by
+          simp only [step]; rw [if_pos (Or.inl hr)]
+        rw [this]; exact ⟨hI, hr, hE, rfl, rfl, rfl⟩
+      | nextFrame p => rw [e1 p]; exact ⟨hI.setPending none, hr, hE, rfl, rfl, rfl⟩
+      | nextFrameInfo => rw [e2]; exact ⟨hI.setPending none, hr, hE, rfl, rfl, rfl⟩
+      | readRow => rw [e3]; exact ⟨hI.setPending none, hr, hE, rfl, rfl, rfl⟩
+      | nextRow => rw [e4 i hi]; exact ⟨(hI.setPending none).setScratch _, hr, hE, rfl, rfl, rfl⟩
+      | finish =>
+        have hsp := finish_spec cfg { r with pendingBuf := none } (hI.setPending none)
+        have hs5 := (step_reader cfg t r hr).2.2.2.2
+        refine ⟨?_, ?_, e5.1, e5.2.1, ?_, ?_⟩
+        · rw [hs5]; exact hsp.1
+        · rw [hs5]; exact hsp.2.1.isReader.trans hr
+        · rw [hs5]; exact hsp.2.1.flags
+        · rcases e5.2.2 with h | h
+          · rw [h]; rfl
+          · generalize (step cfg t r .finish).2 = x at h
+            cases x <;> first | rfl | cases h
+    obtain ⟨k0, k00, k1, k2, k3, k4⟩ := key
+    obtain ⟨a1, a2, a4, a5, a6, a7⟩ := ih (step cfg t r op).1 k0 k00 k1 hops'
+    have hrun : run cfg t r (op :: ops) =
+        ((run cfg t (step cfg t r op).1 ops).1, (step cfg t r op).2 :: (run cfg t (step cfg t r op).1 ops).2) := by
+      simp only [run, List.foldl_cons, List.nil_append]
+      rw [run_acc]
+      simp [run]
+    rw [hrun]
+    refine ⟨a1, a2, a4, a5.trans k2, a6.trans k3, ?_⟩
+    intro res hres
+    simp only [List.mem_cons] at hres
+    rcases hres with rfl | hres
+    · exact k4
+    · exact a7 res hres
+
 /-- a state in which no further frame can be delivered -/
 def Terminal (r : R) : Prop := r.dec.state = none ∨ r.finished = true ∨ (r.remaining = 0 ∧ r.sub.caf = true)
 
